@@ -201,6 +201,11 @@ func main() {
 		ev    evidence
 	}
 	searched := map[string]searchRes{} // one search per offending function, shared by its fields
+	searchStart := time.Now()
+	searchTotal := 45 * time.Second // all searches of one run together (quick tier stays near a minute)
+	if args.Tier == "thorough" {
+		searchTotal = 5 * time.Minute
+	}
 	var hangDone, hangFound bool
 	var hangText string
 	var hangTried []string
@@ -242,7 +247,11 @@ func main() {
 		if d.Check == "well_locked" && d.Field != "" {
 			sr, done := searched[d.Func]
 			if !done {
-				sr.found, sr.ev = searchRace(rep, d, budget, rng.Fork())
+				if time.Since(searchStart) < searchTotal {
+					sr.found, sr.ev = searchRace(rep, d, budget, rng.Fork())
+				} else {
+					sr.ev.Tried = []string{"no search: the run's total search budget (" + searchTotal.String() + ") was used up by the violations reported before this one"}
+				}
 				searched[d.Func] = sr
 			}
 			found, ev := sr.found, sr.ev
@@ -270,6 +279,17 @@ func main() {
 				res.Count("violation_reproduced")
 			} else {
 				detail += "; the search (offending method against each conflicting method of the store, race build and plain build, " + budget.String() + ") found no failing execution: no-failing-input-found"
+				res.Count("violation_not_reproduced")
+			}
+		} else if d.Kind == "channel-capacity" {
+			found, ev := searchRace(rep, d, budget, rng.Fork())
+			rc.Tried = ev.Tried
+			if found && strings.HasPrefix(ev.Evidence, "@@GHOST") {
+				rc.Kind, rc.Mode, rc.Evidence = "relay", "mix", ev.Evidence
+				detail += "; reproduced on a real relay: " + strings.SplitN(strings.TrimPrefix(ev.Evidence, "@@GHOST "), "\n", 2)[0]
+				res.Count("violation_reproduced")
+			} else {
+				detail += "; the stress (connections closed right after the upgrade while the hub is held up, final-state check on /status) did not show a member that is not connected: no-failing-input-found"
 				res.Count("violation_not_reproduced")
 			}
 		} else if d.Kind == "double-acquire" {
@@ -345,6 +365,8 @@ func clauseOf(d diag) string {
 	switch d.Kind {
 	case "double-acquire":
 		return "self-deadlock"
+	case "channel-capacity":
+		return "channel-capacity"
 	case "second-writer-on-connection":
 		return "second-writer-on-connection"
 	case "handler-not-all-or-nothing":
@@ -381,7 +403,7 @@ func describe(d diag) string {
 		return fmt.Sprintf("releases %s without holding it (%s)", d.Lock, d.Pos)
 	case "return-while-holding", "end-of-function-while-holding":
 		return fmt.Sprintf("returns while still holding %s (%s)", d.Lock, d.Pos)
-	case "buffer-shared-across-goroutines", "second-writer-on-connection", "handler-not-all-or-nothing":
+	case "buffer-shared-across-goroutines", "second-writer-on-connection", "handler-not-all-or-nothing", "channel-capacity":
 		return fmt.Sprintf("%s (%s)", d.Lock, d.Pos)
 	case "write-under-read-lock":
 		return fmt.Sprintf("writes guarded field %s while holding %s only for reading (%s)", d.Field, d.Lock, d.Pos)
@@ -500,7 +522,7 @@ func replay(res *lib.Result, rep *report, rc replayCase) {
 		res.Evaluations = 1
 		for try := int64(1); try <= 3; try++ {
 			out := runRelayChild(6, try)
-			for _, mk := range []string{"@@NOTATOMIC ", "@@CORRUPT "} {
+			for _, mk := range []string{"@@NOTATOMIC ", "@@CORRUPT ", "@@GHOST "} {
 				if i := strings.Index(out, mk); i >= 0 {
 					res.Violate(lib.Violation{Clause: "request-not-all-or-nothing", Case: -1, Key: "replay",
 						Detail: "replayed: " + strings.SplitN(out[i+len(mk):], "\n", 2)[0], Replay: rc})
